@@ -945,6 +945,135 @@ def twist_exp_grid(ctx, MT):
                            {'class': cn, 'method': 'exp', 'm': m, 'theta': th.tolist(), 'elements_hex': [hexl(a) for a in A[:m]]})
 
 
+# --------------------------------------------------------------------------------------------- keyword options
+# The grids above call every method with its DEFAULT options.  Here every keyword option of every vectorised method is swept
+# (the options are read from the signature by reflection; the values come from OPTION_VALUES by parameter name, object-valued
+# options such as dest / start are built so that the option matters), over the full product of the option values, and the
+# sequence call is compared element by element with the single-valued call made with the SAME options.
+OPTION_VALUES = {'unit': ['rad', 'deg'], 'units': ['rad', 'deg'], 'order': ['zyx', 'xyz', 'yxz'], 'flip': [False, True],
+                 'twist': [False, True], 'shortest': [False, True], 'dest': ['<none>', '<object>'], 'start': ['<none>', '<object>'],
+                 'theta': ['<none>', 0.7], 's': [0.35]}
+SEQUENCE_PARAM = {'interp': 's', 'exp': 'theta'}      # the argument that may itself be a sequence
+
+
+def method_options(cn, attr):
+    """keyword options (parameters with a default) of a method, in signature order; None for properties"""
+    import inspect
+    obj = None
+    for k in CLASSES[cn].__mro__:
+        if attr in k.__dict__:
+            obj = k.__dict__[attr]
+            break
+    if obj is None or isinstance(obj, property) or not inspect.isfunction(obj):
+        return None
+    ps = list(inspect.signature(obj).parameters.values())[1:]
+    return [q.name for q in ps if q.kind in (q.POSITIONAL_OR_KEYWORD, q.KEYWORD_ONLY) and q.default is not inspect.Parameter.empty]
+
+
+def signed_pool(cn, rng, ref=None):
+    """NMAX generic elements; for unit quaternions the sign of element i is chosen so that its inner product with ref (default: the
+    identity) is negative for odd i -- the case in which `shortest` changes the result"""
+    A = [elem(cn, rng) for _ in range(NMAX)]
+    if cn == 'UnitQuaternion':
+        r = np.r_[1.0, 0, 0, 0] if ref is None else np.asarray(ref, float)
+        for i in range(NMAX):
+            sgn = 1.0 if float(A[i] @ r) >= 0 else -1.0
+            A[i] = A[i] * sgn * (-1.0 if i % 2 else 1.0)
+    return A
+
+
+def option_grid(ctx):
+    import itertools
+    rng = ctx.rng
+    swept, unknown, live = {}, set(), {}
+    for cn in CLASSES:
+        attrs = []
+        for label, attr, f, shape, cat in methods_of(cn):
+            if cat == 'named' and '.' not in attr and attr not in attrs and not attr.startswith('__'):
+                attrs.append(attr)
+        if cn in POSES + ('UnitQuaternion',):
+            attrs.append('interp')
+        for attr in attrs:
+            opts = method_options(cn, attr)
+            if not opts:
+                continue
+            site = f"{definer(cn, attr)}.{attr}"
+            names = [o for o in opts if o in OPTION_VALUES]
+            for o in opts:
+                if o not in OPTION_VALUES:
+                    unknown.add(f"{site}({o}=)")
+            seqp = SEQUENCE_PARAM.get(attr)
+            combos = list(itertools.product(*[OPTION_VALUES[o] for o in names]))
+            swept[site] = names
+            for combo in combos:
+                kwv = dict(zip(names, combo))
+                # object-valued options
+                obj_opt = next((o for o in ('dest', 'start') if kwv.get(o) == '<object>'), None)
+                other = mk(cn, [elem(cn, rng)]) if obj_opt else None
+                if obj_opt and cn == 'UnitQuaternion' and rng.random() < 0.5:
+                    other = mk(cn, [-np.asarray(other.data[0])])
+                A = signed_pool(cn, rng, ref=(other.data[0] if (other is not None and cn == 'UnitQuaternion') else None))
+                kw = {}
+                for o, v in kwv.items():
+                    if v == '<none>':
+                        continue
+                    kw[o] = other if v == '<object>' else v
+                tag = ','.join(f"{o}={'given' if kwv[o] == '<object>' else 'None' if kwv[o] == '<none>' else kwv[o]}" for o in names if o != seqp)
+                As = singles(mk(cn, A))
+
+                def one(x, **extra):
+                    return call(lambda: getattr(x, attr)(**dict(kw, **extra)))
+                # (a) receiver holding M values (the sequence parameter, if any, is a scalar or absent)
+                refs = [one(x) for x in As]
+                if all(r[0] == 'ok' for r in refs):
+                    rv = [unwrap(r[1]) for r in refs]
+                    for o in names:                                   # is the option live on this pool?
+                        if kwv[o] != OPTION_VALUES[o][0]:
+                            base_kw = {k: v for k, v in kw.items() if k != o}
+                            d0 = [call(lambda: getattr(x, attr)(**base_kw)) for x in As[:3]]
+                            if any(r0[0] != 'ok' or not same(unwrap(r0[1]), rv[i]) for i, r0 in enumerate(d0)):
+                                live[f"{site}({o}=)"] = True
+                            else:
+                                live.setdefault(f"{site}({o}=)", False)
+                    for M in LENS:
+                        X = mk(cn, A[:M])
+                        res = one(X)
+                        ctx.case(('option', cn, attr, tag, 'M', M))
+                        ctx.count('oracle:option-cells')
+                        good = res[0] == 'ok' and (lambda got: got is not None and len(got) == M and all(same(got[i], rv[i]) for i in range(M)))(
+                            [unwrap(res[1])] if M == 1 else split_values(res[1], M, rv))
+                        if not good:
+                            ctx.fail(f'oracle:option:{site}:M-values:{tag}', f"{cn}.{attr}({tag}) on an object holding {M} values does not give the {M} "
+                                     f"single-valued results obtained with the same options ({show_outcome(res)})",
+                                     {'class': cn, 'method': attr, 'options': {k: str(v) for k, v in kwv.items()}, 'M': M,
+                                      'elements_hex': [hexl(a) for a in A[:M]], 'option_object_hex': hexl(other.data[0]) if other is not None else None})
+                            break
+                else:
+                    ctx.stats.setdefault('options:single-valued-call-raises', {})[f"{cn}.{attr}({tag})"] = exn_name(next(r[1] for r in refs if r[0] != 'ok'))
+                # (b) one value, the sequence parameter holding K values: element k against the scalar call with the same options
+                if seqp and seqp in names:
+                    SV = np.array([0.12, 0.27, 0.41, 0.58, 0.73, 0.88])
+                    x = As[1]                                          # odd index: negative inner product for unit quaternions
+                    rk = [one(x, **{seqp: float(v)}) for v in SV]
+                    if all(r[0] == 'ok' and single_value(r[1]) is not None for r in rk):
+                        for K in LENS:
+                            res = one(x, **{seqp: SV[:K].copy()})
+                            ctx.case(('option', cn, attr, tag, 'K', K))
+                            ctx.count('oracle:option-cells')
+                            got = vals(res[1]) if res[0] == 'ok' else None
+                            good = got is not None and len(got) == K and all(same(got[i], single_value(rk[i][1])) for i in range(K))
+                            if not good:
+                                bad = [i for i in range(K) if got is not None and len(got) == K and not same(got[i], single_value(rk[i][1]))]
+                                ctx.fail(f'oracle:option:{site}:vector-{seqp}:{tag}', f"{cn}.{attr}({seqp} = {K} values, {tag}): "
+                                         + (f"element(s) {bad} differ from the scalar calls made with the same options" if bad else f"gives {show_outcome(res)}"),
+                                         {'class': cn, 'method': attr, 'options': {k: str(v) for k, v in kwv.items()}, seqp: SV[:K].tolist(), 'differing_elements': bad,
+                                          'receiver_hex': hexl(A[1]), 'option_object_hex': hexl(other.data[0]) if other is not None else None})
+                                break
+    ctx.stats['options:swept'] = {k: v for k, v in swept.items()}
+    ctx.stats['options:not-swept (no value table for the parameter name)'] = sorted(unknown)
+    ctx.stats['options:live-on-the-pool'] = {k: v for k, v in sorted(live.items())}
+
+
 # --------------------------------------------------------------------------------------------- history cells
 # Every grid above uses FRESH operands.  The model is a function of the current list of values only; the history cells
 # tie that to the implementation: evaluate E on X, change X through a list mutator (or change the object the first
@@ -1096,6 +1225,9 @@ def run(ctx):
         for _ in range(ctx.n(1, 8)):
             interp_grid(ctx, MT)
             twist_exp_grid(ctx, MT)
+    with ctx.timed('oracle:options'):
+        for _ in range(ctx.n(1, 4)):
+            option_grid(ctx)
     with ctx.timed('oracle:history'):
         for _ in range(ctx.n(1, 3)):
             history_grid(ctx)
